@@ -242,8 +242,74 @@ func runTable(ctx *core.RunCtx) {
 		ti := g.Choose(ntab)
 		t := tabs[ti]
 		m := models[ti]
-		w := []int{8, 4, 3, 3, 2, 3, 2, 2, 3}
+		w := []int{8, 4, 3, 3, 2, 3, 2, 2, 3, 2}
 		switch g.Weighted(w...) {
+		case 9: // keys no table can hold (nil, NaN), through every door of the library: refused, table unchanged
+			if anyOpen(ti) {
+				continue
+			}
+			bad := rt.NilValue
+			bdesc := "nil"
+			if g.Chance(2, 3) {
+				bad, bdesc = rt.FloatValue(math.NaN()), "NaN"
+			}
+			glob := func(n string) rt.Value { return h.R.GlobalEnv().Get(rt.StringValue(n)) }
+			var out harness.Outcome
+			var op string
+			wantErr := true
+			switch g.Choose(5) {
+			case 0:
+				op = fmt.Sprintf("rawset(t%d, %s, 1)", ti, bdesc)
+				out = h.Call(glob("rawset"), rt.TableValue(t), bad, rt.IntValue(1))
+			case 1:
+				op = fmt.Sprintf("t%d[%s] = 1", ti, bdesc)
+				out.Err = rt.SetIndex(r.MainThread(), rt.TableValue(t), bad, rt.IntValue(1))
+			case 2:
+				op = fmt.Sprintf("rawget(t%d, %s)", ti, bdesc)
+				out = h.Call(glob("rawget"), rt.TableValue(t), bad)
+				wantErr = false
+				if out.Err == nil && (len(out.Values) != 1 || !out.Values[0].IsNil()) {
+					fail("C03.R1", "get-absent-key", "%s returned %s", op, out.String())
+					return
+				}
+			case 3:
+				if bdesc == "nil" {
+					continue // next(t, nil) starts a traversal
+				}
+				op = fmt.Sprintf("next(t%d, %s)", ti, bdesc)
+				out = h.Call(glob("next"), rt.TableValue(t), bad)
+			default:
+				op = fmt.Sprintf("table.insert-style t%d[%s] through Runtime.SetTableCheck", ti, bdesc)
+				out.Err = r.SetTableCheck(t, bad, rt.IntValue(1))
+			}
+			hist = append(hist, op)
+			if out.Panic != nil {
+				fail("C03.R1", "invalid-key-panic", "%s panicked: %v", op, out.Panic)
+				return
+			}
+			if wantErr && out.Err == nil {
+				fail("C03.R1", "invalid-key-accepted", "%s succeeded: a table cannot hold this key", op)
+				return
+			}
+			// nothing was added: as many entries as the model has
+			n := 0
+			var k rt.Value
+			for {
+				nk, _, ok := t.Next(k)
+				if !ok || nk.IsNil() {
+					break
+				}
+				k = nk
+				n++
+				if n > len(m)+5 {
+					break
+				}
+			}
+			if n != len(m) {
+				fail("C03.R1", "invalid-key-stored", "after %s: t%d holds %d entries, the model %d", op, ti, n, len(m))
+				return
+			}
+			verify(ti, op)
 		case 0, 1: // set (case 1: under a quota that may kill mid-operation)
 			ki := pickKey()
 			k := pool[ki]
